@@ -371,7 +371,7 @@ func (r *vssRun) deliverResponse(progress bool) {
 		if to == r.n {
 			// the dealer answers a valid complaint with a justification: decide what it will reveal
 			if valid && !rs.Approved {
-				plan = rapid.SampledFrom([]string{"good", "good", "bad-share", "foreign-commitments", "other-index", "bad-t"}).Draw(r.t, "jplan")
+				plan = rapid.SampledFrom([]string{"good", "good", "bad-share", "foreign-commitments", "extended-commitments", "other-index", "bad-t"}).Draw(r.t, "jplan")
 				r.dealer.SetDeal(int(rs.Index), r.justDeal(int(rs.Index), plan))
 			}
 			just, err = r.dealer.ProcessResponse(rs)
@@ -425,7 +425,7 @@ func (r *vssRun) deliverResponse(progress bool) {
 		r.stats["justification"] = true
 		// A Byzantine dealer may broadcast a second, different justification for the same complaint
 		// (an invalid one followed by the valid one, or the other way round): sign it by hand.
-		if second := rapid.SampledFrom([]string{"", "", "good", "good", "bad-share", "foreign-commitments"}).Draw(r.t, "jsecond"); second != "" && second != plan {
+		if second := rapid.SampledFrom([]string{"", "", "good", "good", "bad-share", "foreign-commitments", "extended-commitments"}).Draw(r.t, "jsecond"); second != "" && second != plan {
 			j2 := gJust{SID: append([]byte(nil), just.SID...), Index: just.Index, Deal: r.justDeal(int(just.Index), second)}
 			j2.Sig, _ = schnorr.Sign(r.suite, r.dlong, r.impl.justHash(r.suite, j2))
 			if rapid.Bool().Draw(r.t, "jsecondfirst") {
@@ -448,6 +448,22 @@ func (r *vssRun) justDeal(idx int, plan string) gDeal {
 	switch plan {
 	case "bad-share":
 		d.V = r.g.Scalar().Add(d.V, r.g.Scalar().One())
+	case "extended-commitments":
+		// the bogus share again, made to verify by APPENDING one coefficient to the genuine commitments:
+		// E = (share*G [+ r*H] - F(x)) / x^t, so that the longer polynomial opens at x = idx+1
+		d.V = r.g.Scalar().Add(d.V, r.g.Scalar().One())
+		target := r.g.Point().Mul(d.V, nil)
+		if r.impl.rabin && d.RV != nil {
+			target = r.g.Point().Add(target, r.g.Point().Mul(d.RV, r.H))
+		}
+		cur := share.NewPubPoly(r.g, r.g.Point().Base(), d.Commits).Eval(uint32(idx)).V
+		x := r.g.Scalar().SetInt64(int64(idx + 1))
+		xt := r.g.Scalar().One()
+		for range d.Commits {
+			xt = r.g.Scalar().Mul(xt, x)
+		}
+		E := r.g.Point().Mul(r.g.Scalar().Inv(xt), r.g.Point().Sub(target, cur))
+		d.Commits = append(d.Commits, E)
 	case "other-index":
 		d = r.honest[(idx+1)%r.n].clone()
 	case "bad-t":
